@@ -1,6 +1,7 @@
 package props
 
 import (
+	"unicode/utf8"
 	"encoding/json"
 	"fmt"
 	"strings"
@@ -20,7 +21,7 @@ func init() {
 		Level:      "exploration",
 		Exhaustive: true,
 		Rule: "exhaustive: every pattern of length <=5 (thorough <=6) over {a,b,*,\\} x every string of length <=4 (thorough <=5) over the same alphabet, matched through policy.Like(\".\",p) + Policy.Match and compared with the reference glob (tokenise + DP); " +
-			"plus every pattern of <=4 (<=5) characters x every string of <=3 (<=4) characters over {a,é,*,\\} (a multi-byte character next to wildcards and escapes), seeded random longer pairs with multi-byte characters, every non-string kind as subject, and patterns ending in a lone backslash offered to policy.Like and policy.FromIPLD. " +
+			"plus every pattern of <=4 (<=5) characters x every string of <=3 (<=4) characters over {a,é,*,\\} (a multi-byte character next to wildcards and escapes), for each of 29 characters c that are special elsewhere (line feed, CR, tab, NUL, regular-expression and shell metacharacters, separators) every pattern x string of <=3 (<=4) characters over {a,*,\\,c}, every pattern x string of <=4 characters over {a,*,\\,LF,.}, long subjects (to >4 KiB) against patterns of up to 40 wildcards, seeded random longer pairs with multi-byte characters, every non-string kind as subject, and patterns ending in a lone backslash offered to policy.Like and policy.FromIPLD. " +
 			"non-trivial = pattern containing * or \\ and string containing * or \\ ; distinct = (pattern,string).",
 		Assumptions: []string{
 			"reference glob ref.GlobMatch (35 lines), self-tested against the repository's glob test table",
@@ -31,7 +32,7 @@ func init() {
 		MinEvals:    floor(400000, 7000000),
 		MinDistinct: floor(100000, 1000000),
 		RequiredCells: func(string) []string {
-			return []string{"pat*/str*", "pat\\/str\\", "pat*/str\\", "pat\\/str*", "lone-backslash/like", "lone-backslash/fromipld", "nonstring/int", "nonstring/bytes", "nonstring/list", "nonstring/map", "nonstring/null", "nonstring/bool", "nonstring/float", "random-long", "multibyte-exhaustive"}
+			return []string{"pat*/str*", "pat\\/str\\", "pat*/str\\", "pat\\/str*", "lone-backslash/like", "lone-backslash/fromipld", "nonstring/int", "nonstring/bytes", "nonstring/list", "nonstring/map", "nonstring/null", "nonstring/bool", "nonstring/float", "random-long", "multibyte-exhaustive", "special-chars-exhaustive", "linefeed-dot-exhaustive", "long-subjects", "long-subjects/over-4KiB"}
 		},
 		Replay: replayC13,
 	})
@@ -195,6 +196,91 @@ func runC13(w *mon.W) {
 		w.Cover("multibyte-exhaustive")
 	}
 
+	// characters that are special in OTHER pattern languages (regular expressions, path globs,
+	// shells) or in text handling (line ends, NUL, separators) are ordinary characters here: for
+	// each of them, exhaustively all patterns x strings of <=3 (<=4) characters over {a,*,\,c};
+	// and exhaustively over {a,*,\,LF,.} to length 4
+	for ci, c := range c13Specials {
+		if !w.Mine(ci) {
+			continue
+		}
+		alpha := []string{"a", "*", `\`, c}
+		sp := allStrings4(alpha, w.Pick(3, 4))
+		for _, pat := range sp {
+			if !ref.GlobValid(pat) || !strings.Contains(pat, c) && !strings.Contains(pat, "*") {
+				continue
+			}
+			pol, err := policy.Construct(policy.Like(".", pat))
+			if err != nil {
+				w.Violate("like/valid-pattern-rejected", fmt.Sprintf("policy.Like rejected valid pattern %q: %v", pat, err), map[string]any{"pattern": pat})
+				continue
+			}
+			for _, str := range sp {
+				if strings.Contains(str, c) {
+					c13Check(w, pat, pol, str)
+				}
+			}
+		}
+		w.Cover("special-chars-exhaustive")
+	}
+	{
+		alpha := []string{"a", "*", `\`, "\n", "."}
+		lp := allStrings4(alpha, 4)
+		for i, pat := range lp {
+			if !w.Mine(i) || !ref.GlobValid(pat) {
+				continue
+			}
+			pol, err := policy.Construct(policy.Like(".", pat))
+			if err != nil {
+				w.Violate("like/valid-pattern-rejected", fmt.Sprintf("policy.Like rejected valid pattern %q: %v", pat, err), map[string]any{"pattern": pat})
+				continue
+			}
+			for _, str := range lp {
+				c13Check(w, pat, pol, str)
+			}
+			w.Cover("linefeed-dot-exhaustive")
+		}
+	}
+	// long subjects and patterns with many wildcards (size thresholds): the subject is built from
+	// the pattern (match) and then perturbed (mostly no match)
+	for i := 0; i < w.Share(w.Pick(400, 8000)); i++ {
+		r := w.Rng
+		var pat, str strings.Builder
+		pieces := 1 + r.IntN(40)
+		for k := 0; k < pieces; k++ {
+			lit := strings.Repeat(gen.Pick(r, []string{"a", "ab", "é", "x\ny", ".", "aab"}), 1+r.IntN(gen.Pick(r, []int{2, 2, 30, 200})))
+			pat.WriteString(gen.EscapeGlob(lit))
+			str.WriteString(lit)
+			if r.IntN(3) > 0 {
+				pat.WriteString("*")
+				str.WriteString(strings.Repeat(gen.Pick(r, []string{"", "a", "\n", "zz", "*"}), r.IntN(gen.Pick(r, []int{2, 50, 2000}))))
+			}
+		}
+		subj := str.String()
+		switch r.IntN(4) {
+		case 0:
+			if len(subj) > 0 {
+				cut := r.IntN(len(subj))
+				subj = subj[:cut] + "q" + subj[cut:]
+			}
+		case 1:
+			subj += "tail"
+		}
+		if !utf8.ValidString(subj) {
+			continue
+		}
+		pol, err := policy.Construct(policy.Like(".", pat.String()))
+		if err != nil {
+			w.Violate("like/valid-pattern-rejected", fmt.Sprintf("policy.Like rejected valid pattern %q: %v", mon.Trunc(pat.String(), 200), err), map[string]any{"pattern": pat.String()})
+			continue
+		}
+		w.Cover("long-subjects")
+		if len(subj) > 4096 {
+			w.Cover("long-subjects/over-4KiB")
+		}
+		c13Check(w, pat.String(), pol, subj)
+	}
+
 	// non-string subjects never match, whatever the pattern
 	subjects := map[string]ref.V{
 		"int": ref.Int(1), "bytes": ref.Bytes([]byte("a")), "list": ref.List(ref.Str("a")), "map": ref.Map(ref.E("a", ref.Str("a"))),
@@ -250,6 +336,10 @@ func runC13(w *mon.W) {
 		c13Check(w, pat, pol, s)
 	}
 }
+
+// c13Specials: characters with a special meaning in regular expressions, shell / path globs
+// or text handling; ordinary characters in the like language.
+var c13Specials = []string{"\n", "\r", "\t", "\x00", ".", "?", "+", "^", "$", "|", "(", ")", "[", "]", "{", "}", "-", "/", " ", ",", "\"", "'", "\u2028", "\u0085", "\ufffd", "%", "_", "!", "#"}
 
 func replayC13(raw json.RawMessage) (string, bool, error) {
 	var c struct {
